@@ -87,7 +87,21 @@ def truth_facts(ctx, body, bb):
     return [(f[1], f[2]) for f in facts_at(ctx, body, bb) if f[0] == "truth"]
 
 
-def switch_succ_with(ctx, body, kind, value, *subject_frags):
+def subject_is_call(term, *frags):
+    """is the fact subject *itself* the result of a call to <frags> (through `?`, map_err, inlining), rather than some
+    value that merely contains such a call?"""
+    t = og.strip(term)
+    while isinstance(t, tuple) and t:
+        if t[0] == "branch":
+            t = og.strip(t[1])
+        elif t[0] == "call" and t[1].split("::")[-1] in ("map_err", "clone", "as_ref", "borrow") and t[2]:
+            t = og.strip(t[2][0])
+        else:
+            break
+    return isinstance(t, tuple) and bool(t) and t[0] == "call" and all(f in t[1] for f in frags)
+
+
+def switch_succ_with(ctx, body, kind, value, *subject_frags, exact=False):
     """[(switch bb, successor bb)] for switch edges carrying fact (kind, subject~frags, value)"""
     out = []
     for bb in body.rpo():
@@ -95,9 +109,29 @@ def switch_succ_with(ctx, body, kind, value, *subject_frags):
             continue
         for succ, facts in ctx.pf.switch_facts(body, bb).items():
             for f in facts:
-                if f[0] == kind and f[2] == value and (not subject_frags or has_call(f[1], *subject_frags)):
-                    out.append((bb, succ))
+                if f[0] == kind and f[2] == value and (not subject_frags or (subject_is_call(f[1], *subject_frags) if exact else has_call(f[1], *subject_frags))):
+                    if (bb, succ) not in out:
+                        out.append((bb, succ))
     return out
+
+
+def reach_without_edges(body, start, target, cut_edges, stop=None):
+    """is `target` reachable from `start` along normal edges other than those in cut_edges (a set of (bb, succ)),
+    not continuing through blocks for which stop(bb) holds?"""
+    seen, st = set(), [start]
+    while st:
+        x = st.pop()
+        if x in seen:
+            continue
+        seen.add(x)
+        if x == target:
+            return True
+        if stop and stop(x) and x != start:
+            continue
+        for s in body.succ(x):
+            if (x, s) not in cut_edges:
+                st.append(s)
+    return False
 
 
 def always_reaches(body, starts, target_bbs, fail=None):
